@@ -62,6 +62,12 @@ def start(bins, home, fe, verb, spelling, tag, sim_extra=None, env_extra=None):
             cwd, arg = os.path.dirname(code), "router"
         elif spelling == "relative":
             cwd, arg = os.path.join(home, "policies"), "current/code/router"
+        elif spelling == "symlink":
+            # the code file itself is a symbolic link to a file of another name: still the device `router`
+            real = code + "-v1"
+            if not os.path.islink(code):
+                os.rename(code, real)
+                os.symlink(os.path.basename(real), code)
         cmd = [os.path.join(bins, "drc")] + (["-C"] if verb == "compare" else []) + ["-L", os.path.join(home, "logs"), arg]
     else:
         cmd = [os.path.join(bins, "do-approve"), verb, "router"]
@@ -150,7 +156,7 @@ def run(tier, replay_file=None):
     else:
         scheds = []
         conts = [("drc", "path", "approve"), ("drc", "name", "compare"), ("doapprove", "", "approve"),
-                 ("doapprove", "", "compare"), ("drc", "relative", "approve")]
+                 ("doapprove", "", "compare"), ("drc", "relative", "approve"), ("drc", "symlink", "compare")]
         for hfe in ("drc", "doapprove"):
             for hverb in ("approve", "compare"):
                 gates = ["after-lock", "login", "fetch", "before-exit"]
